@@ -528,7 +528,7 @@ def _run_ops(c, ops, obj, out=None, dur=None):
     return out
 
 
-_ADAPT = {"blocked": 0}     # per worker process: how often a B was found blocked (shortens the waits)
+_ADAPT = {"blocked": 0, "wedged": 0}     # per worker process: how often a B was found blocked (shortens the waits)
 
 
 class BRun:
@@ -720,6 +720,19 @@ def _interrupted(c, task):
     short, long_ = _stalls(c, key)
     blocked, who = 0, []
     lineno, where, stopped, loc = 0, "", False, None
+    a_wait = max(20.0, long_) if _ADAPT["blocked"] < 2 else max(1.0, short * 4)
+    if _ADAPT["wedged"] >= 3 and mode != "scale":
+        # Several abandoned operations in this process have left the library in a state in which later operations on
+        # FRESH objects never finish.  Is it still so?  Then this event is the same observation (B on a fresh object is
+        # blocked for ever) and is recorded as such without waiting for yet another set of timeouts.
+        probe = BRun(c, ops, _make(c, mode))
+        if not probe.wait(max(0.3, short)):
+            z = _peek(c, _make(c, mode), None)
+            return _event(c, task, loc_len=0, loc_ok=True, pub_len=0, pub_ok=True, same=False, z1=z["z1"], co_ok=z["co_ok"],
+                          b_len=0, b_ok=True, b_z1=z["z1"], b_co_ok=z["co_ok"], res=len(ops), res_bad=len(ops), blocked=2,
+                          f_len=0, f_ok=True, f_z1=z["z1"], f_co_ok=z["co_ok"], f_res_bad=len(ops),
+                          _line=0, _in="", _stopped=False, _bad=[], _fbad=[], _a_exc="",
+                          _who=["B on a fresh object (the process is still wedged by an earlier abandoned operation; A not started)"])
     if kind == "fail":
         bad_obj = c.make_bad()
         out = {}
@@ -731,7 +744,7 @@ def _interrupted(c, task):
                 out["e"] = type(e).__name__
         t = threading.Thread(target=body, daemon=True)
         t.start()
-        t.join(max(20.0, long_))
+        t.join(a_wait)
         if t.is_alive():
             blocked, who = 2, ["A"]
         obj = _make(c, mode)                        # B works on a fresh valid generator
@@ -740,9 +753,10 @@ def _interrupted(c, task):
         obj = _make(c, mode)
         aop = _a_op(c, mode)
         P = sched.Preempter(lambda: aop(obj), _codes(c, mode), obj, idx, opcode, c.libdir if deep else None, interrupt=True)
-        P.run_to_stop(max(20.0, long_))
+        P.run_to_stop(a_wait)
         if P.hung:
             blocked, who = 2, ["A"]                 # A neither got to the event nor finished (e.g. waits for a lock)
+            _ADAPT["blocked"] += 1
         stopped = P.stopped
         lineno, where = P.lineno, P.where
         a_exc = type(P.error).__name__ if P.error is not None else ""
@@ -772,6 +786,8 @@ def _interrupted(c, task):
     got2 = B2.results()
     fbad = [ops[i][0] for i in range(len(ops)) if got2[i] not in exp[i]]
     fin = _peek(c, fresh, None)
+    if blocked == 2:
+        _ADAPT["wedged"] += 1
     return _event(c, task, loc_len=L, loc_ok=loc_ok,
                   pub_len=before["len"], pub_ok=before["ok"], same=before["same"], z1=before["z1"], co_ok=before["co_ok"],
                   b_len=after["len"], b_ok=after["ok"], b_z1=after["z1"], b_co_ok=after["co_ok"],
